@@ -64,6 +64,26 @@ func genC12(seed uint64, tier string) *plan.Plan {
 	default:
 		pl.Cfg["stop_ms"] = int64(1 + r.IntN(int(horizon+20)))
 	}
+	if pl.Cfg["transport"] != 1 && r.IntN(4) == 0 {
+		// Stop under backlog: clients have pipelined many messages, the consumer is stalled so that
+		// the collector holds messages it has read but not yet delivered, and Stop arrives during the
+		// stall; the consumer then drains. Whatever is delivered per connection is a gap-free prefix.
+		pl.Ops = pl.Ops[:0]
+		nc = 1 + r.IntN(3)
+		pl.Cfg["clients"] = int64(nc)
+		for c := 0; c < nc; c++ {
+			pl.Ops = append(pl.Ops, plan.Op{K: "client", T: c, A: int64(r.IntN(5)), B: int64(8 + r.IntN(40)), C: int64(1 + r.IntN(3)), D: 0, S: []string{"close", "stay"}[r.IntN(2)]})
+		}
+		from := int64(r.IntN(8))
+		length := int64(20 + r.IntN(200))
+		pl.Ops = append(pl.Ops, plan.Op{K: "stall", A: from, B: length})
+		pl.Cfg["stop_ms"] = from + 1 + r.Int64N(length)
+		if r.IntN(2) == 0 {
+			// ... or at the very instant the consumer resumes: Stop races with the drain (simulated
+			// time does not move while the backlog drains, so only the scheduler orders the two)
+			pl.Cfg["stop_ms"] = from + length
+		}
+	}
 	genSchedule(r, pl, 6, 6000)
 	return pl
 }
